@@ -244,6 +244,8 @@ pub mod rowan {
                 r@.len() == child_nodes(tree_children(self.tree())).len(),
                 forall|i: int| 0 <= i < r@.len() ==> (#[trigger] r@[i]).tree() == child_nodes(tree_children(self.tree()))[i]
                     && r@[i].index_spec() == node_positions(tree_children(self.tree()))[i],
+                // the same fact, usable from the tree side
+                forall|i: int| 0 <= i < r@.len() ==> #[trigger] child_nodes(tree_children(self.tree()))[i] == r@[i].tree(),
         { unimplemented!() }
 
         /// position among the parent's children (nodes and tokens)
@@ -275,6 +277,7 @@ pub mod rowan {
                 r@.len() == tree_children(self.tree()).len(),
                 forall|i: int| 0 <= i < r@.len() ==> elem_tree(#[trigger] r@[i]) == tree_children(self.tree())[i]
                     && (r@[i] is Node <==> tree_children(self.tree())[i] is Node),
+                forall|i: int| 0 <= i < r@.len() ==> #[trigger] tree_children(self.tree())[i] == elem_tree(r@[i]),
         { unimplemented!() }
     }
 }
